@@ -368,6 +368,8 @@ def o_set(r):
     if r["hp"] is not None:
         return r["hp"]
     if r["phased"]:
+        if r["ps"] == "missing":
+            return None                 # `|` genotype with PS=".": names no phase set
         return r["ps"] if isinstance(r["ps"], int) else 0
     return None
 
